@@ -13,7 +13,8 @@ PROPERTY = 'C06'
 LEVEL = 'exploration'
 RULE = ('Seeded random cases over a pool of 16 configurations = model {linear-squared d=1, linear-squared d=3, softmax-CE '
         'd=2 k=3, softmax-CE d=1 k=2} x regularizer {none, L2, L2 with centre, L2 with centre and per-parameter weights} '
-        '(half of them built through fedjax.Model / model_grad). family "batch": one padded batch of size B in '
+        '(half of them built through fedjax.Model / model_grad; the quick tier uses 8 of the 16, every model and regularizer '
+        'kind, rotated by VERIF_SEED). family "batch": one padded batch of size B in '
         '{1,2,3,4,5,8,16} with 0..min(B,12) real rows at prefix or arbitrary positions, zero or finite-garbage padding; '
         'gradient and average loss on the padded batch vs the closed form vs the real rows alone. family "dataset": 1-3 '
         'clients with 0..12 examples and 2-4 domains (some empty), evaluated under >=4 geometries from batch_size '
@@ -22,15 +23,19 @@ RULE = ('Seeded random cases over a pool of 16 configurations = model {linear-sq
         'create_domain_metrics_for_each_client and HypCluster cluster losses / maximization step vs closed forms and vs '
         'each other. family "algo": one real round of mime / mime_lite / agnostic_federated_averaging / hyp_cluster (eager) '
         'on 1-3 clients under 3 geometries of the padded pass; the server gradient (momentum state), the domain window / '
-        'weights and the cluster assignment vs closed forms and across geometries. Non-trivial: a batch with at least one padded row (incl. fully padded), or a dataset case with >=1 '
-        'example whose geometries differ in batch count or padding, or an empty client; distinct by (configuration, '
-        'mask / geometries, data digest).')
+        'weights and the cluster assignment vs closed forms and across geometries. Non-trivial: a batch with at least one '
+        'padded row (incl. fully padded), or a dataset / algo case (its geometries always differ in batch count or padding), '
+        'or an empty client; distinct by (configuration, mask / geometries, data digest).')
 ASSUMPTIONS = [
     'generated per-example losses ignore the PRNG key and are finite on all-zero and on finite-garbage padding rows '
     '(masking is by multiplication, DESIGN domain note)',
     'the agnostic domain-metric helper is exercised without a regularizer argument, as the algorithm uses it',
     'float32 results are compared with float64 closed forms at |err| <= 3e-5 * (sum of absolute terms) + 1e-6',
     'hyp_cluster._cluster_losses (private) is the cluster-loss pass; reached through the module attribute',
+    'algo family: optax SGD-with-momentum keeps exactly one trace per parameter, so after one round from a zero state the '
+    'server opt_state equals the server gradient; clients may be empty but at least one has an example',
+    'masks are bool arrays as produced by padded_batch (with a bool mask XLA turns mask*inf into 0, so the safe_div inside '
+    'grad() is not observable through the returned gradient; the average-loss safe_div is)',
 ]
 SHARDS = {'quick': 4, 'thorough': 8}
 SHARD_TIMEOUT = {'quick': 900, 'thorough': 3000}
@@ -38,10 +43,10 @@ EXHAUSTIVE = {'quick': False, 'thorough': False}
 MIN_HITS = {
     'quick': {
         'mon:grad': 1500, 'mon:avgloss': 2500, 'mon:regonce': 2500, 'mon:empty': 1500, 'mon:evaluator': 2000,
-        'mon:mime': 3000, 'mon:domain': 4000, 'mon:cluster': 2000, 'mon:geom': 2000, 'mon:algo': 40,
+        'mon:mime': 3000, 'mon:domain': 4000, 'mon:cluster': 2000, 'mon:geom': 2000, 'mon:algo': 30,
         'fully-padded-batch': 150, 'arbitrary-mask': 100, 'garbage-padding': 200, 'empty-client': 30, 'empty-domain': 400,
-        'via-model': 300, 'reg:with-centre': 300, 'reg:none': 150, 'geometry:hand-built': 100, 'algo:mime': 3,
-        'algo:mime_lite': 3, 'algo:agnostic_fed_avg': 3, 'algo:hyp_cluster': 3,
+        'via-model': 300, 'reg:with-centre': 300, 'reg:none': 150, 'geometry:hand-built': 100, 'algo:mime': 2,
+        'algo:mime_lite': 2, 'algo:agnostic_fed_avg': 2, 'algo:hyp_cluster': 2,
     },
     'thorough': {
         'mon:grad': 15000, 'mon:avgloss': 25000, 'mon:regonce': 25000, 'mon:empty': 15000, 'mon:evaluator': 20000,
@@ -65,6 +70,7 @@ BATCH_SHAPES = [1, 2, 3, 4, 5, 8, 16]
 GEOM_BS = [1, 2, 3, 5, 8, 16]
 GEOM_BUCKETS = [1, 2, 3]
 MAX_N = 12
+UNPADDED_SHAPES = (1, 2, 3, 5, 8, 12)
 
 
 # ------------------------------------------------------------- float64 oracles
@@ -277,6 +283,18 @@ class Config:
     return out
 
 
+QUICK_CONFIGS = [(0, 0), (1, 1), (2, 2), (3, 3), (0, 1), (1, 2), (2, 3), (3, 0)]   # (model, regularizer)
+
+
+def config_index(ctx, i):
+  """Configuration of case i. Thorough: all 16, each shard sees 2. Quick: 8 of the 16 (every model and every
+  regularizer kind, half through fedjax.Model), 2 per shard, the regularizer column rotated by VERIF_SEED."""
+  if not ctx.quick:
+    return i % 16
+  m, r = QUICK_CONFIGS[i % 8]
+  return m * 4 + (r + ctx.seed) % 4
+
+
 # ------------------------------------------------------------------- helpers
 def digest(*arrays):
   m = hashlib.sha256()
@@ -363,13 +381,16 @@ def expected_dataset(cfg, params, ex):
 # ---------------------------------------------------------------- batch family
 def batch_case(ctx, mods, cfgs, MK, i, rng):
   jax, jnp, fedjax, models = mods[0], mods[1], mods[2], mods[3]
-  cfg = cfgs(i % 16)
+  cfg = cfgs(config_index(ctx, i))
   B = int(BATCH_SHAPES[rng.randint(len(BATCH_SHAPES))])
   u = rng.rand()
   if u < 0.12:
     n = 0
   elif u < 0.22:
     n = min(B, MAX_N)
+  elif u < 0.6:
+    cand = [v for v in UNPADDED_SHAPES if v <= B]
+    n = int(cand[rng.randint(len(cand))])
   else:
     n = int(rng.randint(0, min(B, MAX_N) + 1))
   arbitrary = rng.rand() < 0.5
@@ -402,8 +423,9 @@ def batch_case(ctx, mods, cfgs, MK, i, rng):
       ctx.check(tree_within(resid, exp['reg_grad'], exp['grad_scale']), 'regonce/grad-regularizer-not-once',
                 f'{which}: gradient minus data term is not exactly one regularizer gradient', {**w_, 'residual': resid,
                                                                                             'reg_grad': exp['reg_grad']})
-  # ---- the same function on the real rows alone (no padding, no mask)
-  if n >= 1:
+  # ---- the same function on the real rows alone (no padding, no mask); 6 row counts bound the compilations
+  alone = n in UNPADDED_SHAPES
+  if alone:
     r2 = ctx.call(which, cfg.grad_fn, jparams, dict(real), key, witness={**wit, 'variant': 'real rows only'})
     if r2.ok:
       g_real = to64(r2.value)
@@ -427,7 +449,7 @@ def batch_case(ctx, mods, cfgs, MK, i, rng):
     if cfg.reg is not None:
       ctx.check(within(v - exp['data_loss'], exp['reg_value'], exp['avg_loss_scale']), 'regonce/avgloss-regularizer-not-once',
                 'evaluate_average_loss minus data term is not exactly one regularizer value', w_)
-    if n >= 1:
+    if alone:
       r4 = ctx.call('evaluate_average_loss', models.evaluate_average_loss, jparams, [dict(real)], key, cfg.loss, cfg.reg,
                     witness={**wit, 'variant': 'real rows only'})
       if r4.ok:
@@ -477,7 +499,7 @@ def dataset_case(ctx, mods, cfgs, MK, i, rng):
   jax, jnp, fedjax, models, regularizers, mime, afa, hc = mods
   from fedjax.core import client_datasets as cd
   from fedjax.core import tree_util
-  cfg = cfgs(i % 16)
+  cfg = cfgs(config_index(ctx, i))
   D = cfg.num_domains
   n_clients = int(rng.randint(1, 4))
   sizes = []
@@ -728,7 +750,7 @@ def algo_case(ctx, mods, cfgs, i, rng):
   from fedjax.core import client_datasets as cd
   from fedjax.core import optimizers
   from fedjax.algorithms import mime_lite
-  cfg = cfgs(i % 16)
+  cfg = cfgs(config_index(ctx, i))
   D = cfg.num_domains
   algo_name = ['mime', 'mime_lite', 'agnostic_fed_avg', 'hyp_cluster'][(i + i // 4) % 4]   # every algorithm, every shard
   n_clients = int(rng.randint(1, 4))
@@ -893,7 +915,7 @@ def run(ctx):
     return cache[idx]
 
   import time
-  n_batch, n_data, n_algo = (1600, 320, 24) if ctx.quick else (16000, 3200, 320)
+  n_batch, n_data, n_algo = (1600, 320, 16) if ctx.quick else (16000, 3200, 320)
   t0 = time.time()
   for cid, rng in ctx.cases('batch', n_batch):
     batch_case(ctx, mods, cfgs, MK, int(cid.split('/')[1]), rng)
